@@ -121,7 +121,7 @@ def fault(nmax, kinds, enc, blocked):
         # operator message
         e2 = M().cardutil.CardutilError('x', record_number=err.record_number, binary_context_data=b'\x00')
         buf = io.StringIO()
-        import cardutil.cli as cli
+        cli = M().cli
         with contextlib.redirect_stdout(buf):
             cli.print_exception_details(e2)
         require('Error detected in record %d\n' % k in buf.getvalue(), 'operator message does not name record %d' % k, key='C10/message', replay=rp)
